@@ -307,7 +307,11 @@ def verify_function(contract, reg, repo=REPO):
         inputs = {}
         def shaped(name, ty):
             n = contract.shape.get(name)
-            if n is None or not isinstance(ty, SeqT):
+            if n is None:
+                return None
+            if isinstance(ty, OptT) and isinstance(ty.inner, SeqT):
+                ty = ty.inner          # bounded instance: the non-None case
+            if not isinstance(ty, SeqT):
                 return None
             return MList([const(ty.elem, '%s!%d' % (name, k)) for k in range(n)])
         for name, ty in contract.params.items():
